@@ -58,8 +58,12 @@ type lockedBuf struct {
 	b  bytes.Buffer
 }
 
-func (l *lockedBuf) Write(p []byte) (int, error) { l.mu.Lock(); defer l.mu.Unlock(); return l.b.Write(p) }
-func (l *lockedBuf) String() string              { l.mu.Lock(); defer l.mu.Unlock(); return l.b.String() }
+func (l *lockedBuf) Write(p []byte) (int, error) {
+	l.mu.Lock()
+	defer l.mu.Unlock()
+	return l.b.Write(p)
+}
+func (l *lockedBuf) String() string { l.mu.Lock(); defer l.mu.Unlock(); return l.b.String() }
 
 const maxPerChild = 20
 
@@ -146,9 +150,12 @@ func stopChildren() {
 		curChild.cleanup()
 		curChild = nil
 	}
+	if d, err := scratchDir(); err == nil {
+		os.RemoveAll(d)
+	}
 }
 
-func runChild(sc scenarioT, stallWindow, hardLimit time.Duration) (cr childRun, err error) {
+func runChild(sc scenarioT, stallWindow, hardLimit time.Duration, listed []string) (cr childRun, err error) {
 	dir, err := scratchDir()
 	if err != nil {
 		return cr, err
@@ -162,7 +169,7 @@ func runChild(sc scenarioT, stallWindow, hardLimit time.Duration) (cr childRun, 
 	cp := curChild
 	outPath := filepath.Join(dir, fmt.Sprintf("out.%d.%d.json", childSeq.Load(), cp.served))
 	defer os.Remove(outPath)
-	req, _ := json.Marshal(childIn{Scenario: sc, StallWindow: int(stallWindow / time.Millisecond), OutPath: outPath})
+	req, _ := json.Marshal(childIn{Scenario: sc, StallWindow: int(stallWindow / time.Millisecond), OutPath: outPath, ListedStalls: listed})
 	t0 := time.Now()
 	alive := true
 	if _, err := cp.stdin.Write(append(req, '\n')); err != nil {
